@@ -127,8 +127,8 @@ def check_logv(ctx: Ctx, c: Dict[str, Any]) -> None:
 def run(ctx: Ctx) -> None:
     ctx.rule = ("compose: one case per (shape, align_corners, pair of affine fields with id+u keeping the hull); bch: one case per (shape, ordered pair "
                 "of distinct affine fields) x 6 truncation orders; logv: round trip on the hull-invariant generators; all values at every grid point")
-    ctx.tlc("MC_Flow", FLOW_CFG.format(emit="FALSE", inv="INVARIANT Laws\n"), label="laws", timeout=3000)
-    res = ctx.tlc("MC_Flow", FLOW_CFG.format(emit="TRUE", inv=""), label="emit", timeout=3000)
+    ctx.tlc("MC_Flow", FLOW_CFG.format(T="Q" if ctx.tier == "quick" else "T", emit="FALSE", inv="INVARIANT Laws\n"), label="laws", timeout=3000)
+    res = ctx.tlc("MC_Flow", FLOW_CFG.format(T="Q" if ctx.tier == "quick" else "T", emit="TRUE", inv=""), label="emit", timeout=3000)
     cases = json_lines(res, key=None)
     comp = [c for c in cases if c["kind"] == "compose"]
     bch = [c for c in cases if c["kind"] == "bch"]
